@@ -122,6 +122,17 @@ Definition read_display_name (s : bytes) : option bytes :=
   | _ => None
   end.
 
+(* The display names for which net/mail.Address.String (go1.23) writes something its own parser rejects:
+   the name needs RFC 2047 encoding (a byte outside SP..~ and TAB), holds a backslash, and none of the
+   characters that make String choose the B encoding — it is then Q-encoded with the backslash left raw
+   inside the encoded-word (known finding dispname-backslash-q-encoded-word). *)
+Definition b_encoding_triggers : bytes :=
+  [34; 35; 36; 37; 38; 39; 40; 41; 44; 46; 58; 59; 60; 62; 64; 91; 93; 94; 96; 123; 124; 125; 126].
+Definition needs_encoding_byte (b : N) : bool := negb (((32 <=? b) && (b <=? 126)) || (b =? 9)).
+Definition q_backslash_name (n : bytes) : bool :=
+  existsb needs_encoding_byte n && existsb (N.eqb 92) n &&
+  negb (existsb (fun b => existsb (N.eqb b) b_encoding_triggers) n).
+
 Section Model.
   Variable parse : bytes -> option addr.
   Variable addr_string : addr -> bytes.
@@ -200,6 +211,16 @@ Section Model.
     | CReplyToFormat n a => set_addr_header m hdr_reply_to [format_addr n a]
     | CGenSet h vals => set_addr_header m h vals
     | CGenIgn h vals => set_addr_header_ign m h vals
+    end.
+
+  (* every string a call hands to the address parser *)
+  Definition call_values (c : call) : list bytes :=
+    match c with
+    | CSet _ vals | CGenSet _ vals => vals
+    | CIgn _ vals | CGenIgn _ vals => map encode_string vals
+    | CAdd _ v | CFrom v | CEnvFrom v | CReplyTo v => [v]
+    | CAddFormat _ n a | CFromFormat n a | CEnvFromFormat n a | CReplyToFormat n a => [format_addr n a]
+    | CFromString _ str => from_string_pieces str
     end.
 
   Definition run (calls : list call) (m : amap) : amap :=
